@@ -33,6 +33,11 @@ CLAIMED["C12"] = dict(cat="proof", sec="DESIGN 4/C12",
     note="A2, A3 (Counter/OrderedDict/torch indexing models), A9. Bounded in the number of variables of a space.",
     tech="contract-based deductive verification (schematic in the number of variables): VCs from the real AST, z3")
 
+CLAIMED["C08"] = dict(cat="proof", sec="DESIGN 4/C08",
+    text="forward of FCN, Harmonic_FCN, Polynomial_FCN, QRES, DeepRitzNet, NormalizationLayer, Sequential, Parallel executed on symbolic batches with symbolic weights: permutation invariance in the variable order, rejection of inputs with a different variable set, row-locality (a second arbitrary batch agreeing on one row gives the same output row), independence of the arrangement into batch axes, Sequential = composition and Parallel = join over abstract part models, box -> [-1,1]^d for the normalization layer.",
+    note="A1, A2, A3: nn.Linear acts on the last axis (out_j = sum_k W_jk x_k + b_j), activations are element-wise functions, nn.Sequential composes (assumed contracts). Bounded: schematic input spaces and small concrete layer widths; rows, data, weights symbolic.",
+    tech="contract-based deductive verification (schematic in layer widths / number of variables): VCs from the real AST, z3")
+
 NA = {
  "C19": "restore fidelity is a property of Lightning's checkpoint / torch.save machinery, the file system and process restarts; no contract on a repo function expresses it (DESIGN 4/C19)",
  "C20": "shift-equivariance / resolution consistency are DFT theorems about torch.fft in complex floating point; a contract on _FourierLayer.forward could only restate them as axioms of an external library (DESIGN 4/C20)",
